@@ -1075,7 +1075,12 @@ impl World {
                 let mut exp: Vec<i32> = inuse.clone();
                 exp.push(want as i32);
                 exp.sort_unstable();
-                if last2 as i64 != want || inuse2 != exp {
+                // (a call which failed at once - the driver was gone, the request never left the
+                // client - may have given its ID back already)
+                let mut same = inuse.clone();
+                same.sort_unstable();
+                let failed_at_once = self.clients[i].task.is_none() && matches!(self.clients[i].log.last().map(|o| &o.ret), Some(Ret::Err(..)));
+                if last2 as i64 != want || (inuse2 != exp && !(failed_at_once && inuse2 == same)) {
                     self.v(
                         "ids:allocation",
                         format!("allocation from (last={}, in use {:?}) gave (last={}, in use {:?}); reference: ID {}", last, inuse, last2, inuse2, want),
